@@ -222,7 +222,7 @@ fn half_word_lattice(tier: &str, emit: Emit) {
         if tier == "thorough" { v.extend([m >> 1, m ^ (m >> 1), 5, 0x5555_5555_5555_5555_5555_5555_5555_5555u128 & m, 0xAAAA_AAAA_AAAA_AAAA_AAAA_AAAA_AAAA_AAAAu128 & m]); }
         v
     };
-    for (tag, w) in [("F128x2", 128usize), ("F64x5", 64), ("F32x3", 32), ("F16x2", 16), ("F8x3", 8)] {
+    for (tag, w) in [("F128x3", 128usize), ("F64x5", 64), ("F32x3", 32), ("F16x2", 16), ("F8x3", 8)] {
         let ty = ty_of(tag);
         let h = w / 2;
         let vals = hv(h);
@@ -240,8 +240,49 @@ fn half_word_lattice(tier: &str, emit: Emit) {
     }
 }
 
+/// word-level generate / propagate / kill lattice with arbitrary word values: for every word position the pair of operand words
+/// is chosen to *generate* a carry (borrow), to *propagate* an incoming one (`b = !a` for addition, `b = a` for subtraction — the
+/// case a comparison-based borrow detection gets wrong), or to *kill* it. The same pairs are also divided (a shared middle word
+/// under a borrow is what `rem -= divisor` meets).
+fn gpk_lattice(rng: &mut Rng, tier: &str, emit: Emit, ops: &[&str]) {
+    for lt in TYPES {
+        let w = lt.w;
+        let nw = match lt.cap() { Some(c) => c / w, None => 2 + rng.below(4) };
+        if nw < 2 { continue; }
+        let wmask: u128 = if w == 128 { u128::MAX } else { (1u128 << w) - 1 };
+        for _ in 0..scale(tier, 40) {
+            let sub = rng.chance(1, 2);
+            let (mut aw, mut bw) = (vec![0u128; nw], vec![0u128; nw]);
+            for i in 0..nw {
+                let x = ((rng.next() as u128) << 64 | rng.next() as u128) & wmask;
+                let cls = if i == 0 { 0 } else { rng.below(4) };
+                let (a, b) = match (cls, sub) {
+                    (0, false) => (x | (1 << (w - 1)), ((!x) & wmask).wrapping_add(1 + rng.below(3) as u128) & wmask | (1 << (w - 1))),   // generate
+                    (0, true) => (x & (wmask >> 1), x | (1 << (w - 1))),                                                       // borrow out
+                    (1, false) | (2, false) => (x, (!x) & wmask),                                                                   // propagate (add)
+                    (1, true) | (2, true) => (x, x),                                                                               // propagate (sub)
+                    (_, false) => (x >> 2, x >> 3),
+                    (_, true) => (x | (1 << (w - 1)), x & (wmask >> 2)),
+                };
+                aw[i] = a; bw[i] = b;
+            }
+            if sub && rng.chance(2, 3) { let t = nw - 1; aw[t] = bw[t].wrapping_add(1 + rng.below(4) as u128) & wmask; }   // a > b overall: the subtraction happens in div_rem
+            let bits = |ws: &Vec<u128>| -> Vec<bool> { (0..nw * w).map(|i| (ws[i / w] >> (i % w)) & 1 == 1).collect() };
+            let l = vec_token(lt, &bits(&aw), rng.below(2), rng.chance(1, 3));
+            let rt = if rng.chance(2, 3) { *lt } else { *rng.pick(TYPES) };
+            let mut rb = bits(&bw);
+            rb.truncate(rt.cap().unwrap_or(usize::MAX));
+            let r = vec_token(&rt, &rb, rng.below(2), rng.chance(1, 3));
+            for op in ops {
+                emit(line(op, &[&l, &r, "ar"]));
+            }
+        }
+    }
+}
+
 fn gen_c01(rng: &mut Rng, tier: &str, emit: Emit) {
     carry_lattice(rng, tier, emit);
+    gpk_lattice(rng, tier, emit, &["add", "sub"]);
     half_word_lattice(tier, emit);
     gen_binary(rng, tier, emit, &["add", "sub", "mul"], MAXD, 12);
     // carry / borrow ripple through all-ones and all-zero words; u128 half-word lattice for wmul
@@ -267,7 +308,7 @@ fn gen_c01(rng: &mut Rng, tier: &str, emit: Emit) {
 fn div_word_lattice(rng: &mut Rng, tier: &str, emit: Emit) {
     let ws: [u64; 10] = [0, 1, 2, 3, 1 << 63, (1 << 63) - 1, u64::MAX, u64::MAX - 1, 1 << 61, 0x8000_0000_0000_0001];
     let reps = if tier == "quick" { 1500 } else { 40000 };
-    let tys = [ty_of("D"), ty_of("A"), ty_of("F64x5"), ty_of("F128x2"), ty_of("F32x3")];
+    let tys = [ty_of("D"), ty_of("A"), ty_of("F64x5"), ty_of("F128x3"), ty_of("F32x3")];
     for _ in 0..reps {
         let lt = *rng.pick(&tys);
         let rt = *rng.pick(&tys);
@@ -290,6 +331,7 @@ fn div_word_lattice(rng: &mut Rng, tier: &str, emit: Emit) {
 fn gen_c02(rng: &mut Rng, tier: &str, emit: Emit) {
     div_lattice(rng, tier, emit);
     div_word_lattice(rng, tier, emit);
+    gpk_lattice(rng, tier, emit, &["div", "rem"]);
     gen_binary(rng, tier, emit, &["div", "rem"], 200, 8);
     // special divisors: 1, 2^k, the dividend itself ± 1, all ones, zero, empty; divisor longer than the
     // dividend's length and capacity
